@@ -178,6 +178,40 @@ focus("longstr",
 focus("undoc",
       dict(Enabled=["Module", "Fn", "Len", "Idx", "Mem", "Int"], MaxNodes=5, MaxSteps=1, LenAddrs=nset([1, 2])))
 
+# --- a member and a variable of the same name, references with an address (`m: &m`; seed C20d); no shorthand production
+#     (this focus was first written by hand as spec/MC_PenneGrammar_fields_<tier>.cfg; the generator reproduces those files)
+focus("fields",
+      dict(Enabled=["Module", "Fn", "FCall", "Array", "Structural", "FieldFull", "Deref", "Idx", "Mem", "Len", "Int"],
+           MaxArgs=2, MaxElems=2, MaxFields=2, MaxSteps=2, MaxNodes=7, VarNames=["m", "x"], Addrs=nset([1, 2])))
+
+# --- the cell generator spec/MC_PenneGrammarCells.tla (dimension audit): sizes past 2^7, 2^8, 2^10 (2^16 for names and strings in
+#     the thorough tier), nesting depths, the documented maxima, positions x atoms / types / statements, names, declaration order
+CELLS = {
+    "quick": dict(Families=["wide", "deep", "bound", "pos", "type", "stmt", "name", "order", "decl", "indent", "strlen"],
+                  Sizes=nset([130, 270, 1100]), Depths=nset([130, 270]), IfDepths=nset([130]),
+                  IndentDepths=nset([0, 1, 2, 3, 7, 8, 9, 15, 16, 17, 31, 32, 33, 64, 130]),
+                  StrLens=nset([127, 128, 129, 255, 256, 257, 1023, 1024, 1025]), NameLogs=nset([7, 8, 10]),
+                  OrderForms=nset(range(1, 29))),
+    "thorough": dict(Families=["wide", "deep", "bound", "pos", "type", "stmt", "name", "order", "decl", "indent", "strlen"],
+                     Sizes=nset([127, 128, 129, 130, 255, 256, 257, 270, 1023, 1024, 1025, 1100]), Depths=nset([127, 128, 129, 130, 255, 256, 257, 270, 1100]),
+                     IfDepths=nset([127, 128, 129, 130, 270]),
+                     IndentDepths=nset(list(range(0, 41)) + [63, 64, 65, 127, 128, 129, 130, 255, 256, 257]),
+                     StrLens=nset([127, 128, 129, 255, 256, 257, 1023, 1024, 1025, 4095, 4096, 4097, 65535, 65536, 65537]),
+                     NameLogs=nset([7, 8, 10, 12, 16]), OrderForms=nset(range(1, 29))),
+}
+CELL_ORDER = ["Families", "Sizes", "Depths", "IfDepths", "IndentDepths", "StrLens", "NameLogs", "OrderForms"]
+
+
+def cells_config(tier):
+    """configuration of MC_PenneGrammarCells.tla: the constants of PenneGrammar keep their base values (the cells do not use them)"""
+    text = render(dict(BASE), ["CellsOK", "EmitCell"], spec="CSpec")
+    lines = []
+    for key in CELL_ORDER:
+        v = CELLS[tier][key]
+        lines.append("  %s = %s" % (key, sset(v) if isinstance(v, list) else v))
+    return text.replace("CONSTANTS\n", "CONSTANTS\n" + "\n".join(lines) + "\n", 1)
+
+
 ORDER = ["Mode", "MaxNodes", "Enabled", "FlagSets", "VarForms", "FnNames", "ParamNames", "VarNames", "LabelNames",
          "GotoNames", "MemberNames", "TypeNames", "ConstNames", "Builtins", "PrimTypes", "WordSizes", "Files", "IntLits",
          "CharLits", "StrLits", "ArrayLens", "AddOps", "MulOps", "BitOps", "ShiftOps", "UnOps", "CmpOps", "MaxDecls",
@@ -237,7 +271,9 @@ def main():
         tr[open_alphabet] = "{}"      # taken from the recording in trace mode
     open(os.path.join(SPEC, "Trace_Grammar.cfg"), "w").write(render(tr, [], spec="TSpec", extra="POSTCONDITION Accepted"))
     open(os.path.join(SPEC, "MC_PenneGrammar_sim.cfg"), "w").write(sim_config())
-    print("wrote %d configurations" % (2 * len(FOCI) + 2))
+    for tier in ("quick", "thorough"):
+        open(os.path.join(SPEC, "MC_PenneGrammarCells_%s.cfg" % tier), "w").write(cells_config(tier))
+    print("wrote %d configurations" % (2 * len(FOCI) + 4))
 
 
 if __name__ == "__main__":
